@@ -109,10 +109,13 @@ type Exec struct {
 	known    []knownPred
 	inputs   []*Term
 	inputNames []string
-	// sharding
-	shard, nshards, splitDepth int
-	frontier                   int
-	owned                      bool
+	// work splitting: the frontier pass cuts the path tree at splitDepth; every prefix of that length is a task
+	splitDepth   int
+	frontierMode bool
+	frontier     []workItem
+	owned        bool
+	hungry       func() bool
+	donate       func([]workItem)
 	// configuration
 	tier        int // 0 quick, 1 thorough
 	activeKnown map[string]bool
@@ -277,13 +280,19 @@ func hashDecisions(d []int) uint32 {
 	return h
 }
 
-// static sharding: the subtree below each decision prefix of length splitDepth belongs to one shard
+// in the frontier pass a path is cut when it reaches splitDepth decisions; the prefix becomes a subtree task
 func (x *Exec) afterDecision() {
-	if x.nshards > 1 && len(x.decision) == x.splitDepth {
-		if int(hashDecisions(x.decision)%uint32(x.nshards)) != x.shard {
-			x.owned = false
-			panic(abortPath{"other shard", true})
+	if x.frontierMode && len(x.decision) == x.splitDepth {
+		var m map[*Term]uint64
+		if x.model != nil {
+			m = make(map[*Term]uint64, len(x.model))
+			for k, v := range x.model {
+				m[k] = v
+			}
 		}
+		x.frontier = append(x.frontier, workItem{append([]int{}, x.decision...), m})
+		x.owned = false
+		panic(abortPath{"frontier", true})
 	}
 	if !x.deadline.IsZero() && x.res.Decisions%64 == 0 && time.Now().After(x.deadline) {
 		panic(timeoutAbort{})
